@@ -142,8 +142,8 @@ func (c *c18Run) onePoints(kind c18PointKind, opt c18Opt, word []int) {
 	}
 	cas := c18Case{Name: "m", Unit: "", Kind: "points/" + kind.id, Opt: opt.id, Scheme: "utf8", Sets: desc}
 
-	saved := model.NameValidationScheme              //nolint:staticcheck
-	model.NameValidationScheme = model.UTF8Validation //nolint:staticcheck
+	saved := model.NameValidationScheme                   //nolint:staticcheck
+	model.NameValidationScheme = model.UTF8Validation     //nolint:staticcheck
 	defer func() { model.NameValidationScheme = saved }() //nolint:staticcheck
 	c.handled = c.handled[:0]
 	k := c18Kind{id: "points/" + kind.id, counter: kind.counter}
@@ -232,8 +232,8 @@ func (c *c18Run) twoScopes(kind c18PointKind, descA, descB string) {
 		class = "equal descriptions (" + dcls(descA) + ")"
 	}
 	cas := map[string]any{"kind": kind.id, "scopes_in_order": []string{"sa", "sb"}, "instrument_name": "m", "descriptions_in_order": []string{descA, descB}}
-	saved := model.NameValidationScheme              //nolint:staticcheck
-	model.NameValidationScheme = model.UTF8Validation //nolint:staticcheck
+	saved := model.NameValidationScheme                   //nolint:staticcheck
+	model.NameValidationScheme = model.UTF8Validation     //nolint:staticcheck
 	defer func() { model.NameValidationScheme = saved }() //nolint:staticcheck
 	c.handled = c.handled[:0]
 	enum.Guard("process-death|scrape|two-scopes|"+kind.id, cas, r.Here())
@@ -318,8 +318,8 @@ func (c *c18Run) twoScopes(kind c18PointKind, descA, descB string) {
 func (c *c18Run) twoKinds(ka, kb c18PointKind) {
 	r := c.r
 	cas := map[string]any{"instrument_name": "m", "kinds_in_order": []string{ka.id, kb.id}, "scopes_in_order": []string{"sa", "sb"}}
-	saved := model.NameValidationScheme              //nolint:staticcheck
-	model.NameValidationScheme = model.UTF8Validation //nolint:staticcheck
+	saved := model.NameValidationScheme                   //nolint:staticcheck
+	model.NameValidationScheme = model.UTF8Validation     //nolint:staticcheck
 	defer func() { model.NameValidationScheme = saved }() //nolint:staticcheck
 	c.handled = c.handled[:0]
 	enum.Guard("process-death|scrape|two-kinds|"+ka.id+"+"+kb.id, cas, r.Here())
@@ -410,8 +410,8 @@ func (c *c18Run) twoKinds(ka, kb c18PointKind) {
 func (c *c18Run) badResource(kind c18PointKind, badKey string, opt c18Opt) {
 	r := c.r
 	cas := map[string]any{"kind": kind.id, "resource_attribute_key": show18(badKey), "option": opt.id}
-	saved := model.NameValidationScheme              //nolint:staticcheck
-	model.NameValidationScheme = model.UTF8Validation //nolint:staticcheck
+	saved := model.NameValidationScheme                   //nolint:staticcheck
+	model.NameValidationScheme = model.UTF8Validation     //nolint:staticcheck
 	defer func() { model.NameValidationScheme = saved }() //nolint:staticcheck
 	c.handled = c.handled[:0]
 	enum.Guard("process-death|scrape|bad-resource|"+kind.id, cas, r.Here())
